@@ -16,6 +16,8 @@ CONSTANTS MaxBlocks, MinBlocks, MaxRuns,
           HLevels, LiTypes, LiLevels,
           FlagNames,              \* run flag sets, by name: "" "b" "bi" ... "bisc"
           FirstCls, MoreCls,      \* text classes of the first / of the further runs of a paragraph
+          PosText,                \* TRUE: the first run of the i-th block holds the i-th plain class (distinct texts, no blow-up)
+          TblOffs,                \* offsets into CellCls at which a table starts cycling
           EmptyCls,               \* what an "empty" paragraph holds: "none" (no run) or a text class without words
           TblShapes,              \* "1x1" .. "3x3"  (rows x columns)
           CellCls,                \* sequence of text classes cycled through the cells
@@ -62,17 +64,19 @@ TblBlock(s, off) ==
   Blk("tbl", 0, "", <<>>,
       [r \in 1..ShapeR(s) |-> [c \in 1..ShapeC(s) |-> CellCls[(((r - 1) * ShapeC(s) + c - 1 + off) % Len(CellCls)) + 1]]])
 
+FirstAt == IF PosText THEN {CS_plain[(Len(g.body) % Len(CS_plain)) + 1]} ELSE FirstCls
+
 AddPara ==
   /\ Building
-  /\ \E k \in Kinds \cap {"p", "q", "code"}, fn \in FlagNames, c \in FirstCls :
+  /\ \E k \in Kinds \cap {"p", "q", "code"}, fn \in FlagNames, c \in FirstAt :
         g' = [g EXCEPT !.body = Append(@, Blk(k, 0, "", <<Run(FlagsOf(fn), c)>>, <<>>))]
 AddHeading ==
   /\ Building /\ "h" \in Kinds
-  /\ \E n \in HLevels, fn \in FlagNames, c \in FirstCls :
+  /\ \E n \in HLevels, fn \in FlagNames, c \in FirstAt :
         g' = [g EXCEPT !.body = Append(@, Blk("h", n, "", <<Run(FlagsOf(fn), c)>>, <<>>))]
 AddItem ==
   /\ Building /\ "li" \in Kinds
-  /\ \E a \in LiTypes, n \in LiLevels, fn \in FlagNames, c \in FirstCls :
+  /\ \E a \in LiTypes, n \in LiLevels, fn \in FlagNames, c \in FirstAt :
         g' = [g EXCEPT !.body = Append(@, Blk("li", n, a, <<Run(FlagsOf(fn), c)>>, <<>>))]
 AddEmpty ==
   /\ Building /\ "empty" \in Kinds
@@ -80,7 +84,7 @@ AddEmpty ==
         g' = [g EXCEPT !.body = Append(@, Blk("empty", 0, "", IF e = "none" THEN <<>> ELSE <<Run({}, e)>>, <<>>))]
 AddTable ==
   /\ Building /\ "tbl" \in Kinds
-  /\ \E s \in TblShapes : g' = [g EXCEPT !.body = Append(@, TblBlock(s, Len(g.body)))]
+  /\ \E s \in TblShapes, off \in TblOffs : g' = [g EXCEPT !.body = Append(@, TblBlock(s, Len(g.body) + off))]
 AddRun ==
   /\ g.ph = "body" /\ g.body # <<>> /\ LastB.k \in {"p", "h", "q", "code", "li"} /\ Len(LastB.runs) < MaxRuns
   /\ \E fn \in FlagNames, c \in MoreCls :
